@@ -22,7 +22,8 @@ theorem validateCert_ok {c : Cfg} {s s' : St} {ps : Bytes} {co : CertOut}
     (h : validateCert c s ps co = (s', none)) :
     ∃ pub ver cert, co.recombine = some (pub, ver) ∧ pub = ps ∧ co.verify = some cert ∧
       s'.remoteCert = some cert ∧ s'.remoteCertSet = true ∧ s'.failed = s.failed ∧
-      s'.payloadSet = s.payloadSet ∧ s'.remoteIndex = s.remoteIndex ∧ s'.msgIdx = s.msgIdx := by
+      s'.payloadSet = s.payloadSet ∧ s'.remoteIndex = s.remoteIndex ∧ s'.msgIdx = s.msgIdx ∧
+      s'.localIndex = s.localIndex ∧ s'.indexAllocated = s.indexAllocated ∧ s'.handshakeTime = s.handshakeTime := by
   unfold validateCert at h
   split at h
   · simp at h
@@ -38,7 +39,7 @@ theorem validateCert_ok {c : Cfg} {s s' : St} {ps : Bytes} {co : CertOut}
         · rename_i v hv
           simp at h hpub
           subst h
-          refine ⟨pub, ver, v, hrc, hpub, hv, rfl, rfl, ?_, ?_, ?_, ?_⟩ <;> (simp only; split <;> rfl)
+          refine ⟨pub, ver, v, hrc, hpub, hv, rfl, rfl, ?_, ?_, ?_, ?_, ?_, ?_, ?_⟩ <;> (simp only; split <;> rfl)
 
 /-- an error from `validateCert` always marks the Machine failed. -/
 theorem validateCert_err {c : Cfg} {s s' : St} {ps : Bytes} {co : CertOut} {e : Err}
